@@ -121,6 +121,12 @@ Cache.vos Cache.vok Cache.required_vos: Cache.v Graph.vos Sched.vos Dataflow.vos
 CacheFacts.vo CacheFacts.glob CacheFacts.v.beautified CacheFacts.required_vo: CacheFacts.v Graph.vo GraphFacts.vo Sched.vo Dataflow.vo Args.vo ArgsFacts.vo Cache.vo
 CacheFacts.vio: CacheFacts.v Graph.vio GraphFacts.vio Sched.vio Dataflow.vio Args.vio ArgsFacts.vio Cache.vio
 CacheFacts.vos CacheFacts.vok CacheFacts.required_vos: CacheFacts.v Graph.vos GraphFacts.vos Sched.vos Dataflow.vos Args.vos ArgsFacts.vos Cache.vos
+Concurrent.vo Concurrent.glob Concurrent.v.beautified Concurrent.required_vo: Concurrent.v Graph.vo Sched.vo Dataflow.vo
+Concurrent.vio: Concurrent.v Graph.vio Sched.vio Dataflow.vio
+Concurrent.vos Concurrent.vok Concurrent.required_vos: Concurrent.v Graph.vos Sched.vos Dataflow.vos
+ConcurrentFacts.vo ConcurrentFacts.glob ConcurrentFacts.v.beautified ConcurrentFacts.required_vo: ConcurrentFacts.v Graph.vo Sched.vo SchedInv.vo Dataflow.vo DataflowFacts.vo Concurrent.vo
+ConcurrentFacts.vio: ConcurrentFacts.v Graph.vio Sched.vio SchedInv.vio Dataflow.vio DataflowFacts.vio Concurrent.vio
+ConcurrentFacts.vos ConcurrentFacts.vok ConcurrentFacts.required_vos: ConcurrentFacts.v Graph.vos Sched.vos SchedInv.vos Dataflow.vos DataflowFacts.vos Concurrent.vos
 Properties/C01.vo Properties/C01.glob Properties/C01.v.beautified Properties/C01.required_vo: Properties/C01.v Graph.vo Sched.vo SchedInv.vo Dataflow.vo DataflowFacts.vo
 Properties/C01.vio: Properties/C01.v Graph.vio Sched.vio SchedInv.vio Dataflow.vio DataflowFacts.vio
 Properties/C01.vos Properties/C01.vok Properties/C01.required_vos: Properties/C01.v Graph.vos Sched.vos SchedInv.vos Dataflow.vos DataflowFacts.vos
@@ -166,12 +172,12 @@ Properties/C14.vos Properties/C14.vok Properties/C14.required_vos: Properties/C1
 Properties/C15.vo Properties/C15.glob Properties/C15.v.beautified Properties/C15.required_vo: Properties/C15.v Graph.vo Sched.vo SchedInv.vo Dataflow.vo DataflowFacts.vo DenPre.vo Args.vo ArgsFacts.vo
 Properties/C15.vio: Properties/C15.v Graph.vio Sched.vio SchedInv.vio Dataflow.vio DataflowFacts.vio DenPre.vio Args.vio ArgsFacts.vio
 Properties/C15.vos Properties/C15.vok Properties/C15.required_vos: Properties/C15.v Graph.vos Sched.vos SchedInv.vos Dataflow.vos DataflowFacts.vos DenPre.vos Args.vos ArgsFacts.vos
-Properties/C16.vo Properties/C16.glob Properties/C16.v.beautified Properties/C16.required_vo: Properties/C16.v Threads.vo ThreadsFacts.vo
-Properties/C16.vio: Properties/C16.v Threads.vio ThreadsFacts.vio
-Properties/C16.vos Properties/C16.vok Properties/C16.required_vos: Properties/C16.v Threads.vos ThreadsFacts.vos
-Properties/C17.vo Properties/C17.glob Properties/C17.v.beautified Properties/C17.required_vo: Properties/C17.v Graph.vo Sched.vo SchedInv.vo SchedGhost.vo Dataflow.vo DataflowFacts.vo SameNodes.vo SchedAsync.vo
-Properties/C17.vio: Properties/C17.v Graph.vio Sched.vio SchedInv.vio SchedGhost.vio Dataflow.vio DataflowFacts.vio SameNodes.vio SchedAsync.vio
-Properties/C17.vos Properties/C17.vok Properties/C17.required_vos: Properties/C17.v Graph.vos Sched.vos SchedInv.vos SchedGhost.vos Dataflow.vos DataflowFacts.vos SameNodes.vos SchedAsync.vos
+Properties/C16.vo Properties/C16.glob Properties/C16.v.beautified Properties/C16.required_vo: Properties/C16.v Threads.vo ThreadsFacts.vo Graph.vo Sched.vo SchedInv.vo Dataflow.vo DataflowFacts.vo Concurrent.vo ConcurrentFacts.vo
+Properties/C16.vio: Properties/C16.v Threads.vio ThreadsFacts.vio Graph.vio Sched.vio SchedInv.vio Dataflow.vio DataflowFacts.vio Concurrent.vio ConcurrentFacts.vio
+Properties/C16.vos Properties/C16.vok Properties/C16.required_vos: Properties/C16.v Threads.vos ThreadsFacts.vos Graph.vos Sched.vos SchedInv.vos Dataflow.vos DataflowFacts.vos Concurrent.vos ConcurrentFacts.vos
+Properties/C17.vo Properties/C17.glob Properties/C17.v.beautified Properties/C17.required_vo: Properties/C17.v Graph.vo Sched.vo SchedInv.vo SchedGhost.vo Dataflow.vo DataflowFacts.vo SameNodes.vo SchedAsync.vo Concurrent.vo ConcurrentFacts.vo
+Properties/C17.vio: Properties/C17.v Graph.vio Sched.vio SchedInv.vio SchedGhost.vio Dataflow.vio DataflowFacts.vio SameNodes.vio SchedAsync.vio Concurrent.vio ConcurrentFacts.vio
+Properties/C17.vos Properties/C17.vok Properties/C17.required_vos: Properties/C17.v Graph.vos Sched.vos SchedInv.vos SchedGhost.vos Dataflow.vos DataflowFacts.vos SameNodes.vos SchedAsync.vos Concurrent.vos ConcurrentFacts.vos
 Properties/C18.vo Properties/C18.glob Properties/C18.v.beautified Properties/C18.required_vo: Properties/C18.v Graph.vo Select.vo SelectFacts.vo History.vo HistoryFacts.vo Dataflow.vo Args.vo ArgsFacts.vo Cache.vo CacheFacts.vo
 Properties/C18.vio: Properties/C18.v Graph.vio Select.vio SelectFacts.vio History.vio HistoryFacts.vio Dataflow.vio Args.vio ArgsFacts.vio Cache.vio CacheFacts.vio
 Properties/C18.vos Properties/C18.vok Properties/C18.required_vos: Properties/C18.v Graph.vos Select.vos SelectFacts.vos History.vos HistoryFacts.vos Dataflow.vos Args.vos ArgsFacts.vos Cache.vos CacheFacts.vos
